@@ -1623,8 +1623,38 @@ func iterationStateIsPerConsumer(c *core.Ctx) {
 			continue
 		}
 		rt := core.NamedOf(fn.Signature.Recv().Type())
-		if rt == nil || strings.HasSuffix(strings.ToLower(rt.Obj().Name()), "iter") {
-			continue // an iterator is the per-consumer state
+		if rt == nil {
+			continue
+		}
+		if strings.HasSuffix(strings.ToLower(rt.Obj().Name()), "iter") {
+			// an iterator is the per-consumer state - of a container that one
+			// thread walks.  An iterator that takes its values from a channel
+			// is handed to several threads on purpose (it := range jobs), and
+			// each loop over it needs its own "value received last"
+			receives := false
+			if nm := core.Method(rt, "Next"); nm != nil {
+				if nf := p.SSAFunc(nm); nf != nil {
+					for _, b := range nf.Blocks {
+						for _, in := range b.Instrs {
+							switch x := in.(type) {
+							case *ssa.Select:
+								for _, st := range x.States {
+									if st.Dir == types.RecvOnly {
+										receives = true
+									}
+								}
+							case *ssa.UnOp:
+								if x.Op == token.ARROW {
+									receives = true
+								}
+							}
+						}
+					}
+				}
+			}
+			if !receives {
+				continue
+			}
 		}
 		n++
 		self := false
